@@ -12,6 +12,7 @@ import tempfile
 from pathlib import Path
 
 from check import Result
+from vlib.shrink import ddmin
 
 META = {
     'level_text': 'Theorems for every chunking of the written text, every crash point, every single I/O fault with any partial write, '
@@ -798,35 +799,14 @@ def nongiven_saved(spec, ref, values):
     return [[n, v] for n, v in values if ref['persistent'].get(n) and n not in given]
 
 
-def check_case(ctx, res, spec, case, quick_crash=3, kind='history'):
-    """run one history on the implementation, compare with the model, judge; appends to res"""
-    rng = ctx.rng
-    ref = restart(spec, None, None)
-    if ref.get('module') is None:
-        raise RuntimeError(f'reference module cannot be created: {ref["exc"]} {spec}')
-    impl = run_impl(spec, case)
+def history_tables(spec, case, ref, impl):
+    """oracle tables (json, datatypes) covering every value and file content of one history"""
     steps = impl['steps']
-    res.evaluations += 1
-    full = {'kind': kind, 'spec': spec, 'case': case}
-    first = steps[0]
     tb = Tables(spec, ref)
     for n, v in ref['module'].parameters.items():
         tb.add_val(n, v.value)
     if case.get('file') is not None:
         tb.add_file(bytes.fromhex(case['file']))
-    if first['values'] is None:
-        # creation failed.  With a healthy file system that is the start-up clause; with an injected fault in the
-        # initial save the statement does not demand that creation succeeds.
-        if case.get('fault') is None:
-            res.violations.append({'sig': 'C17:startup-aborted:' + str(first['exc']),
-                                   'what': f'module creation raised {first["exc"]} with stored file content '
-                                           f'{bytes.fromhex(case["file"] or "")[:60]!r}', 'case': full})
-        res.count('start.aborted')
-        return
-    m = impl['module']
-    for rec in steps:
-        for n, p in zip([x[0] for x in rec['values']], m.parameters.values()):
-            pass
     # values seen (python objects are needed for the oracle tables): re-derive from reprs is impossible, so collect live
     for p in spec['params']:
         dt = tb.dts[p['name']]
@@ -845,7 +825,72 @@ def check_case(ctx, res, spec, case, quick_crash=3, kind='history'):
     for d in impl['datas']:
         tb.add_data(d)
     # datas of intermediate value combinations cannot be enumerated in advance: add what the closure found
-    tables = tb.close()
+    return tb.close()
+
+
+def reload_requests(spec, case, ref, impl, tables):
+    """-> [(step index, request)] for every loadParameters() of the history"""
+    steps = impl['steps']
+    return [(i, reload_request(ref, rec['pre'][0], [r['values'] for r in steps[:i]], rec['values'], tables))
+            for i, rec in enumerate(steps) if i > 0 and case['acts'][i - 1]['a'] == 'load']
+
+
+_shrunk = [0]
+
+
+def reload_findings(spec, case, kind, steps, verdicts):
+    """violation records for the reloads the Lean monitors rejected; verdicts = [(step index, answer of judge_reload)]"""
+    out = []
+    for i, a in verdicts:
+        full = {'kind': kind, 'spec': spec, 'case': case, 'where': ['step', i]}
+        now = dict(map(tuple, steps[i]['values']))
+        if a['thisrun']:
+            n = a['thisrun'][0]
+            held = list(dict.fromkeys(dict(map(tuple, r['values']))[n] for r in steps[:i]))
+            out.append({'sig': 'C17:reload-resurrects-overridden-value',
+                        'what': f'loadParameters() at step {i} gave {a["thisrun"]} a value the parameter never had in this run '
+                                f'({n} = {now[n]}; since start-up it held {held}; given in the configuration: {sorted(spec["cfg"])}): '
+                                f'a value stored by an earlier run overrides what start-up decided', 'case': full})
+        if a['restores']:
+            out.append({'sig': 'C17:reload-not-restored',
+                        'what': f'loadParameters() at step {i} did not restore {a["restores"]} to the usable stored value',
+                        'case': full})
+    return out
+
+
+def shrink_reload(ctx, spec, case, ref, key):
+    """smallest sub-history for which the Lean monitor still rejects a reload under the same clause (`key`)"""
+    def fails(acts):
+        c = dict(case, acts=acts)
+        impl = run_impl(spec, c, trials=False)
+        if impl['steps'][0]['values'] is None:
+            return False
+        rq = reload_requests(spec, c, ref, impl, history_tables(spec, c, ref, impl))
+        return any(a.get(key) for a in ctx.driver.batch([r for _, r in rq])) if rq else False
+    return dict(case, acts=ddmin(case['acts'], fails, max_tests=60))
+
+
+def check_case(ctx, res, spec, case, quick_crash=3, kind='history'):
+    """run one history on the implementation, compare with the model, judge; appends to res"""
+    rng = ctx.rng
+    ref = restart(spec, None, None)
+    if ref.get('module') is None:
+        raise RuntimeError(f'reference module cannot be created: {ref["exc"]} {spec}')
+    impl = run_impl(spec, case)
+    steps = impl['steps']
+    res.evaluations += 1
+    full = {'kind': kind, 'spec': spec, 'case': case}
+    first = steps[0]
+    if first['values'] is None:
+        # creation failed.  With a healthy file system that is the start-up clause; with an injected fault in the
+        # initial save the statement does not demand that creation succeeds.
+        if case.get('fault') is None:
+            res.violations.append({'sig': 'C17:startup-aborted:' + str(first['exc']),
+                                   'what': f'module creation raised {first["exc"]} with stored file content '
+                                           f'{bytes.fromhex(case["file"] or "")[:60]!r}', 'case': full})
+        res.count('start.aborted')
+        return
+    tables = history_tables(spec, case, ref, impl)
 
     reqs, tags = [], []
     reqs.append(model_request(spec, case, ref, impl, tables))
@@ -909,12 +954,11 @@ def check_case(ctx, res, spec, case, quick_crash=3, kind='history'):
             res.traces += 1
             res.count('crash.restart')
     # ---- reloads (loadParameters() in the running module): restored values, and where they come from
-    for i, rec in enumerate(steps):
-        if i > 0 and case['acts'][i - 1]['a'] == 'load':
-            reqs.append(reload_request(ref, rec['pre'][0], [r['values'] for r in steps[:i]], rec['values'], tables))
-            tags.append(('reload', ('step', i)))
-            res.traces += 1
-            res.count('reload.after-start' if i == 1 else 'reload.later')
+    for i, rq in reload_requests(spec, case, ref, impl, tables):
+        reqs.append(rq)
+        tags.append(('reload', ('step', i)))
+        res.traces += 1
+        res.count('reload.after-start' if i == 1 else 'reload.later')
     # ---- start-up precedence of the first creation
     reqs.append(start_request(spec, ref, case.get('file'), first['values'], tables))
     tags.append(('start', None))
@@ -932,6 +976,7 @@ def check_case(ctx, res, spec, case, quick_crash=3, kind='history'):
                                   'model': model_steps[bad] if bad < len(model_steps) else None,
                                   'impl': impl_obs[bad] if bad < len(impl_obs) else None})
     # ---- verdicts of the monitors
+    bad_reloads = []
     for (tag, where), a in zip(tags[1:], answers[1:]):
         if tag == 'snap' and a['bad'] is not None:
             rec = steps[where[1]] if where[0] == 'step' else impl['trials'][where[1]]['first']
@@ -960,20 +1005,20 @@ def check_case(ctx, res, spec, case, quick_crash=3, kind='history'):
         elif tag == 'start' and a['bad']:
             res.violations.append({'sig': 'C17:startup-precedence', 'what': f'start-up values of {a["bad"]} are not cfg > stored > default',
                                    'case': full})
-        elif tag == 'reload':
-            rec = steps[where[1]]
-            if a['thisrun']:
-                n = a['thisrun'][0]
-                res.violations.append({'sig': 'C17:reload-resurrects-overridden-value',
-                                       'what': f'loadParameters() at step {where[1]} gave {a["thisrun"]} a value the parameter never had in '
-                                               f'this run ({n}: {dict(map(tuple, rec["values"]))[n]}, held so far '
-                                               f'{sorted(set(dict(map(tuple, r["values"]))[n] for r in steps[:where[1]]))}; given in the '
-                                               f'configuration: {sorted(spec["cfg"])}): a value stored by an earlier run overrides what '
-                                               f'start-up decided', 'case': dict(full, where=where)})
-            if a['restores']:
-                res.violations.append({'sig': 'C17:reload-not-restored',
-                                       'what': f'loadParameters() at step {where[1]} did not restore {a["restores"]} to the usable stored '
-                                               f'value', 'case': dict(full, where=where)})
+        elif tag == 'reload' and (a['thisrun'] or a['restores']):
+            bad_reloads.append((where[1], a))
+    if bad_reloads:
+        small, sm_steps, verdicts = case, steps, bad_reloads
+        if _shrunk[0] < 3:
+            _shrunk[0] += 1
+            key = 'thisrun' if any(a['thisrun'] for _, a in bad_reloads) else 'restores'
+            cand = shrink_reload(ctx, spec, case, ref, key)
+            impl2 = run_impl(spec, cand, trials=False)
+            rq = reload_requests(spec, cand, ref, impl2, history_tables(spec, cand, ref, impl2))
+            v2 = [(i, a) for (i, _), a in zip(rq, ctx.driver.batch([r for _, r in rq])) if a.get('thisrun') or a.get('restores')]
+            if v2:
+                small, sm_steps, verdicts = cand, impl2['steps'], v2
+        res.violations.extend(reload_findings(spec, small, kind, sm_steps, verdicts))
     # ---- statistics
     nsaves = sum(1 for r in steps if r['evs'])
     faulted = sum(1 for r in steps if any(e[-1] == 'FAULT' for e in r['evs']))
